@@ -6,15 +6,21 @@ VERIF = os.path.dirname(os.path.dirname(os.path.abspath(__file__)))
 
 CLAIMED = {
     'C01': {
-        'text': ('Lean theorems: the reduction driver (identity removal, scalar relocation, binary-rule scan with '
-                 'step-back/restart) preserves typing and denotation for every chain length, index, firing order '
-                 'and fuel, given per-rule soundness; rule registry and check/apply resolution re-checked by the '
-                 'kernel against tables regenerated from the source; the executable model of reduce() (the same '
-                 'functions the theorems speak about) is compared with the real reduce() on seeded well-typed '
-                 'expressions and the dense-matrix oracle is evaluated on the implementation.'),
+        'text': ('Lean theorems: reduce() of the model (compositions with the 13 registered binary rules incl. the '
+                 'block rules\' recursive reduce, sums, block containers, the reduce() overrides of index/ravel/reshape, '
+                 'lazy wrappers) returns, for every well-formed expression of any size and depth and every fuel, a '
+                 'well-formed expression with the same structures and the same denotation (reduce_sound, by induction '
+                 'on the fuel over the scan soundness: any chain length, index, firing order); per-rule soundness is '
+                 'proved from named leaf laws (RuleLaws/ContainerLaws), whose joint satisfiability is witnessed; the '
+                 'unrelativised rule soundness is proved false (non-square o with DiagonalInverseOperator). Rule '
+                 'registry and check/apply resolution re-checked by the kernel against tables regenerated from the '
+                 'source; the executable model of reduce() (the same functions the theorems speak about) is compared '
+                 'with the real reduce() on seeded well-typed expressions and the dense-matrix oracle is evaluated on '
+                 'the implementation.'),
         'note': ('Trusted: Lean kernel + propext/Classical.choice/Quot.sound; harness encoder/translator; JAX '
-                 'primitives (A1, A2), exact lazy inverse (A4); rule laws not yet discharged against kernel '
-                 'models are explicit hypotheses (OpSem / RuleSound) of the theorems.'),
+                 'primitives (A1, A2), exact lazy inverse (A4, part of WTExpr: A.invertible); the leaf laws of '
+                 'RuleLaws/ContainerLaws are hypotheses of reduce_sound, established for the implementation by the '
+                 'kernel theorems of C10/C12/C13/C16 and by the dense oracle, not by one closed denotation.'),
         'technique': 'Lean 4 proof (induction on fuel/chain) + differential correspondence of the executable model',
         'design_ref': '§5 C01',
     },
